@@ -81,6 +81,13 @@ def protein_only(text):
 
 def structures(ctx):
     prot = [("1HPX-protein", protein_only(C.test_pdb_text("1HPX"))), ("frag-3SGB-E0+40", C.fragment("3SGB", "E", 0, 40))]
+    # incomplete residues: side chains modelled up to the defining atom only (fallback code paths use the group centre)
+    frag = C.chain_lines("1HPX", "A", 20, 25)
+    trunc = [ln for ln in frag if not (C.is_atom(ln) and ((ln[17:20] == "ASP" and ln[12:16].strip() in ("OD1", "OD2"))
+                                                         or (ln[17:20] == "GLU" and ln[12:16].strip() in ("OE1", "OE2"))
+                                                         or (ln[17:20] == "ARG" and ln[12:16].strip() in ("NH1", "NH2", "NE"))
+                                                         or (ln[17:20] == "LYS" and ln[12:16].strip() in ("CE",))))]
+    prot.append(("frag-1HPX-A20+25-truncated", C.join(trunc + [C.TER])))
     het = [("1HPX", C.test_pdb_text("1HPX")), ("4DFR-A", "\n".join(ln for ln in C.test_pdb_text("4DFR").splitlines()
                                                               if not (C.is_atom(ln) and ln[21] != "A")) + "\n")]
     if ctx.thorough():
